@@ -7,6 +7,7 @@ import (
 	"go/ast"
 	"go/token"
 	"go/types"
+	"golang.org/x/tools/go/ssa"
 	"path/filepath"
 	"regexp"
 	"sort"
@@ -97,8 +98,8 @@ func (c *Ctx) dbCalls(fi *FuncInfo) []dbCall {
 // ---------------------------------------------------------------------------------
 // A5 version after script
 
-var ruleA5 = &Rule{
-	ID:    "A5",
+var ruleA5old = &Rule{
+	ID:    "A5old",
 	Floor: 6,
 	Doc: "version after script: in the migration runner (the function of ctrl/qryn/maintenance executing `INSERT INTO ver`), the version write is inside the loop over the script's statements, " +
 		"dominated by the success edge of the error check of `exec(scripts[i])` of the same iteration; it records the runner's stream id parameter and i+1; the loop is `for i := <version read from the ver table for that stream>; i < len(scripts); i++` with no other write to i; " +
@@ -643,84 +644,225 @@ var ruleC5 = &Rule{
 		if err != nil {
 			return []Obl{{Key: "embedded scripts", Pos: "-", Status: Undecided, Msg: err.Error()}}
 		}
-		// the runner = function with the version write; callers pass (…, k const, script var, …)
-		var runner types.Object
-		for _, fi := range c.Funcs(c.PkgsUnder(pkgCtrlMaint)) {
-			for _, d := range c.dbCalls(fi) {
-				if d.method == "Exec" && strings.HasPrefix(strings.ToUpper(strings.Join(strings.Fields(d.query), " ")), "INSERT INTO VER") {
-					runner = fi.Pkg.TypesInfo.Defs[fi.Decl.Name]
-				}
-			}
-		}
-		if runner == nil {
-			return []Obl{{Key: "migration runner", Pos: "-", Status: Undecided, Msg: "function writing the ver table not found"}}
-		}
+		// runner calls: calls in ctrl/ that receive an embedded migration script (a variable of ctrl/qryn/sql) together with an
+		// integer stream id — written out one by one, or driven by a local table of {stream id, script, …} rows walked by a range loop
 		usedK := map[string]string{}
 		usedS := map[string]string{}
+		sqlPkg := modPath + "/ctrl/qryn/sql"
+		type runnerCall struct {
+			fi        *FuncInfo
+			call      *ast.CallExpr
+			k, script string
+			distGuard bool // runs only under a condition mentioning the distributed mode
+			cond      bool // runs under some other condition
+		}
+		var rcalls []runnerCall
 		for _, fi := range c.Funcs(c.PkgsUnder("ctrl")) {
+			if isTestFile(c, fi.Decl) {
+				continue
+			}
 			info := fi.Pkg.TypesInfo
+			scriptOf := func(e ast.Expr) string {
+				if se, ok := ast.Unparen(e).(*ast.SelectorExpr); ok {
+					if o := info.Uses[se.Sel]; o != nil && objPkgPath(o) == sqlPkg {
+						if _, isVar := o.(*types.Var); isVar {
+							return o.Name()
+						}
+					}
+				}
+				return ""
+			}
+			enclosingIfs := func(call *ast.CallExpr) (dist, other bool) {
+				ast.Inspect(fi.Decl.Body, func(m ast.Node) bool {
+					if is, ok := m.(*ast.IfStmt); ok && is.Body.Pos() <= call.Pos() && call.End() <= is.Body.End() {
+						if strings.Contains(strings.ToUpper(c.normText(is.Cond)), "DISTRIBUTED") {
+							dist = true
+						} else {
+							other = true
+						}
+					}
+					return true
+				})
+				return
+			}
 			ast.Inspect(fi.Decl.Body, func(n ast.Node) bool {
 				call, ok := n.(*ast.CallExpr)
-				if !ok || calleeObj(info, call) != runner {
+				if !ok {
 					return true
 				}
+				if o, ok := calleeObj(info, call).(*types.Func); !ok || !strings.HasPrefix(objPkgPath(o), modPath+"/ctrl") {
+					return true
+				}
+				// (i) written out: a script variable and an integer constant among the arguments
 				var k, script string
+				var rowVar types.Object
+				var kField, sField string
 				for _, a := range call.Args {
+					if sn := scriptOf(a); sn != "" {
+						script = sn
+					}
 					if tv, ok := info.Types[a]; ok && tv.Value != nil && k == "" {
 						if b, ok := tv.Type.Underlying().(*types.Basic); ok && b.Info()&types.IsInteger != 0 {
 							k = tv.Value.ExactString()
 						}
 					}
+					// (ii) table-driven: row.field
 					if se, ok := ast.Unparen(a).(*ast.SelectorExpr); ok {
-						if o := info.Uses[se.Sel]; o != nil && objPkgPath(o) == modPath+"/ctrl/qryn/sql" {
-							script = o.Name()
-						}
-					}
-				}
-				key := fmt.Sprintf("%s runner call stream=%s script=%s", fi.Name(), k, script)
-				st, msg := OK, ""
-				if k == "" || script == "" {
-					st, msg = Undecided, "stream id is not a constant or the script is not an embedded script variable"
-				} else {
-					if prev, dup := usedK[k]; dup {
-						st, msg = Violation, fmt.Sprintf("stream id %s is used for %s and %s: the two scripts share one version counter, statements of one are skipped", k, prev, script)
-					}
-					if prev, dup := usedS[script]; dup {
-						st, msg = Violation, fmt.Sprintf("script %s is run under stream ids %s and %s", script, prev, k)
-					}
-					usedK[k] = script
-					usedS[script] = k
-					// dist scripts only under the distributed condition
-					if strings.Contains(script, "Dist") && st == OK {
-						guarded := false
-						ast.Inspect(fi.Decl.Body, func(m ast.Node) bool {
-							if is, ok := m.(*ast.IfStmt); ok && is.Body.Pos() <= call.Pos() && call.End() <= is.Body.End() {
-								if strings.Contains(strings.ToUpper(c.normText(is.Cond)), "DISTRIBUTED") {
-									guarded = true
+						if id, ok := ast.Unparen(se.X).(*ast.Ident); ok {
+							if v, ok := info.Uses[id].(*types.Var); ok && !v.IsField() {
+								if tv, ok := info.Types[a]; ok {
+									if b, ok := tv.Type.Underlying().(*types.Basic); ok {
+										if b.Info()&types.IsInteger != 0 && kField == "" {
+											rowVar, kField = v, se.Sel.Name
+										}
+										if b.Info()&types.IsString != 0 {
+											rowVar, sField = v, se.Sel.Name
+										}
+									}
 								}
 							}
-							return true
-						})
-						if !guarded {
-							st, msg = Violation, "distributed-table script is run outside the distributed-mode condition"
-						}
-					} else if st == OK {
-						// non-dist scripts must be unconditional
-						cond := false
-						ast.Inspect(fi.Decl.Body, func(m ast.Node) bool {
-							if is, ok := m.(*ast.IfStmt); ok && is.Body.Pos() <= call.Pos() && call.End() <= is.Body.End() {
-								cond = true
-							}
-							return true
-						})
-						if cond {
-							st, msg = Violation, "base script is run only conditionally: a configuration exists in which its migrations are skipped"
 						}
 					}
 				}
-				obls = append(obls, Obl{Key: key, Pos: c.pos(call.Pos()), Status: st, Msg: msg})
+				if script != "" {
+					d, o := enclosingIfs(call)
+					rcalls = append(rcalls, runnerCall{fi, call, k, script, d, o})
+					return true
+				}
+				if rowVar == nil || kField == "" || sField == "" {
+					return true
+				}
+				// the range loop that defines rowVar and the table it walks
+				var loop *ast.RangeStmt
+				ast.Inspect(fi.Decl.Body, func(m ast.Node) bool {
+					if rs, ok := m.(*ast.RangeStmt); ok {
+						if id, ok := rs.Value.(*ast.Ident); ok && info.Defs[id] == rowVar {
+							loop = rs
+						}
+					}
+					return true
+				})
+				if loop == nil {
+					return true
+				}
+				var table *ast.CompositeLit
+				if cl, ok := ast.Unparen(loop.X).(*ast.CompositeLit); ok {
+					table = cl
+				} else if id, ok := ast.Unparen(loop.X).(*ast.Ident); ok {
+					tobj := info.Uses[id]
+					ast.Inspect(fi.Decl.Body, func(m ast.Node) bool {
+						if as, ok := m.(*ast.AssignStmt); ok {
+							for i, lh := range as.Lhs {
+								if l, ok := lh.(*ast.Ident); ok && (info.Defs[l] == tobj || info.Uses[l] == tobj) && i < len(as.Rhs) {
+									if cl, ok := ast.Unparen(as.Rhs[i]).(*ast.CompositeLit); ok {
+										table = cl
+									}
+								}
+							}
+						}
+						return true
+					})
+				}
+				if table == nil {
+					return true
+				}
+				var st *types.Struct
+				if tv, ok := info.Types[table]; ok {
+					if sl, ok := tv.Type.Underlying().(*types.Slice); ok {
+						st, _ = sl.Elem().Underlying().(*types.Struct)
+					}
+					if ar, ok := tv.Type.Underlying().(*types.Array); ok {
+						st, _ = ar.Elem().Underlying().(*types.Struct)
+					}
+				}
+				if st == nil {
+					return true
+				}
+				// a guard `if row.<bool> && !distributed { continue }` (or the reverse nesting) in the loop body before the call
+				guardField := ""
+				for _, bs := range loop.Body.List {
+					is, ok := bs.(*ast.IfStmt)
+					if !ok || is.Pos() > call.Pos() || len(is.Body.List) != 1 {
+						continue
+					}
+					if br, ok := is.Body.List[0].(*ast.BranchStmt); !ok || br.Tok != token.CONTINUE {
+						continue
+					}
+					ct := c.normText(is.Cond)
+					if !strings.Contains(strings.ToUpper(ct), "DISTRIBUTED") || !strings.Contains(ct, "!") {
+						continue
+					}
+					ast.Inspect(is.Cond, func(m ast.Node) bool {
+						if se, ok := m.(*ast.SelectorExpr); ok {
+							if id, ok := ast.Unparen(se.X).(*ast.Ident); ok && info.Uses[id] == rowVar {
+								guardField = se.Sel.Name
+							}
+						}
+						return true
+					})
+				}
+				for _, el := range table.Elts {
+					row, ok := ast.Unparen(el).(*ast.CompositeLit)
+					if !ok {
+						continue
+					}
+					vals := map[string]ast.Expr{}
+					for i, sub := range row.Elts {
+						if kv, ok := sub.(*ast.KeyValueExpr); ok {
+							if id, ok := kv.Key.(*ast.Ident); ok {
+								vals[id.Name] = kv.Value
+							}
+						} else if i < st.NumFields() {
+							vals[st.Field(i).Name()] = sub
+						}
+					}
+					rk, rs := "", ""
+					if e, ok := vals[kField]; ok {
+						if tv, ok := info.Types[e]; ok && tv.Value != nil {
+							rk = tv.Value.ExactString()
+						}
+					}
+					if e, ok := vals[sField]; ok {
+						rs = scriptOf(e)
+					}
+					guarded := false
+					if guardField != "" {
+						if e, ok := vals[guardField]; ok {
+							if tv, ok := info.Types[e]; ok && tv.Value != nil && tv.Value.ExactString() == "true" {
+								guarded = true
+							}
+						}
+					}
+					_, o := enclosingIfs(call)
+					rcalls = append(rcalls, runnerCall{fi, call, rk, rs, guarded, o})
+				}
 				return true
 			})
+		}
+		for _, rc := range rcalls {
+			k, script := rc.k, rc.script
+			key := fmt.Sprintf("%s runner call stream=%s script=%s", rc.fi.Name(), k, script)
+			st, msg := OK, ""
+			if k == "" || script == "" {
+				st, msg = Undecided, "stream id is not a constant or the script is not an embedded script variable"
+			} else {
+				if prev, dup := usedK[k]; dup {
+					st, msg = Violation, fmt.Sprintf("stream id %s is used for %s and %s: the two scripts share one version counter, statements of one are skipped", k, prev, script)
+				}
+				if prev, dup := usedS[script]; dup {
+					st, msg = Violation, fmt.Sprintf("script %s is run under stream ids %s and %s", script, prev, k)
+				}
+				usedK[k] = script
+				usedS[script] = k
+				if strings.Contains(script, "Dist") && st == OK {
+					if !rc.distGuard {
+						st, msg = Violation, "distributed-table script is run outside the distributed-mode condition"
+					}
+				} else if st == OK && (rc.cond || rc.distGuard) {
+					st, msg = Violation, "base script is run only conditionally: a configuration exists in which its migrations are skipped"
+				}
+			}
+			obls = append(obls, Obl{Key: key, Pos: c.pos(rc.call.Pos()), Status: st, Msg: msg})
 		}
 		var names []string
 		for v := range scripts {
@@ -732,38 +874,16 @@ var ruleC5 = &Rule{
 				obls = append(obls, Obl{Key: "embedded script " + v + " is run", Pos: "ctrl/qryn/sql/sql.go", Status: Violation, Msg: "embedded migration script is never passed to the runner"})
 			}
 		}
-		// settings key derivation
+		// settings key derivation: the value hashed into the fingerprint, as (format literal, ordered string-parameter positions),
+		// computed on SSA through helpers shared by the two functions
 		var keyFmt []string
 		for _, fn := range []string{"getSetting", "putSetting"} {
-			p, fd := c.FuncDecl(pkgCtrlMaint, fn)
-			if fd == nil {
+			sf := c.SSAFunc(pkgCtrlMaint, fn)
+			if sf == nil {
 				obls = append(obls, Obl{Key: "settings key " + fn, Pos: "-", Status: Undecided, Msg: "anchor not found"})
 				continue
 			}
-			info := p.TypesInfo
-			found := ""
-			ast.Inspect(fd.Body, func(n ast.Node) bool {
-				call, ok := n.(*ast.CallExpr)
-				if !ok {
-					return true
-				}
-				if o := calleeObj(info, call); o != nil && objPkgPath(o) == "fmt" && o.Name() == "Sprintf" && len(call.Args) == 3 {
-					if f, ok := constString(info, call.Args[0]); ok && strings.Contains(f, "type") && strings.Contains(f, "name") {
-						// arguments normalised to parameter positions
-						args := []string{}
-						for _, a := range call.Args[1:] {
-							t := c.normText(a)
-							for pi, pf := range flatParams(fd) {
-								t = regexp.MustCompile(`\b`+regexp.QuoteMeta(pf)+`\b`).ReplaceAllString(t, fmt.Sprintf("$string%d", stringParamIndex(fd, info, pi)))
-							}
-							args = append(args, t)
-						}
-						found = f + " | " + strings.Join(args, ", ")
-					}
-				}
-				return true
-			})
-			keyFmt = append(keyFmt, found)
+			keyFmt = append(keyFmt, settingsKeyDerivation(sf, nil, 0))
 		}
 		if len(keyFmt) == 2 {
 			st, msg := OK, keyFmt[0]
@@ -1126,7 +1246,7 @@ func constInt(s string) (int64, bool) {
 	return v, err == nil
 }
 
-func init() { register(ruleA5, ruleA6, ruleC5, ruleC6, ruleJ1, ruleJ2) }
+func init() { register(ruleA6, ruleC5, ruleC6, ruleJ1, ruleJ2) }
 
 // ---------------------------------------------------------------------------------
 // C7 settings keys are not shared
@@ -1403,4 +1523,117 @@ func writesObj(info *types.Info, body ast.Node, obj types.Object) bool {
 		return true
 	})
 	return w
+}
+
+var _ = ruleA5old
+
+// settingsKeyDerivation: the Sprintf that builds the settings key in fn (or in a helper it calls), rendered as
+// "<format> | <ordinal among the string parameters of the outermost function>, …". bind maps the helper's parameters to the
+// outer function's values.
+func settingsKeyDerivation(fn *ssa.Function, bind map[ssa.Value]ssa.Value, depth int) string {
+	if fn == nil || depth > 2 {
+		return ""
+	}
+	strOrdinal := func(outer *ssa.Function, p *ssa.Parameter) int {
+		n := 0
+		for _, q := range outer.Params {
+			if b, ok := q.Type().Underlying().(*types.Basic); ok && b.Info()&types.IsString != 0 {
+				if q == p {
+					return n
+				}
+				n++
+			}
+		}
+		return -1
+	}
+	for _, b := range fn.Blocks {
+		for _, ins := range b.Instrs {
+			call, ok := ins.(*ssa.Call)
+			if !ok {
+				continue
+			}
+			sc := call.Common().StaticCallee()
+			if sc == nil {
+				continue
+			}
+			if sc.String() == "fmt.Sprintf" && len(call.Common().Args) == 2 {
+				f, ok := constStr(call.Common().Args[0])
+				if !ok || !strings.Contains(f, "type") || !strings.Contains(f, "name") {
+					continue
+				}
+				var args []string
+				// packed arguments in index order
+				type packed struct {
+					i int64
+					v ssa.Value
+				}
+				var ps []packed
+				if sl, ok := call.Common().Args[1].(*ssa.Slice); ok {
+					if al, ok := sl.X.(*ssa.Alloc); ok && al.Referrers() != nil {
+						for _, r := range *al.Referrers() {
+							if ia, ok := r.(*ssa.IndexAddr); ok && ia.Referrers() != nil {
+								k, _ := ia.Index.(*ssa.Const)
+								for _, rr := range *ia.Referrers() {
+									if st, ok := rr.(*ssa.Store); ok && k != nil {
+										n, _ := int64Of(k)
+										ps = append(ps, packed{n, st.Val})
+									}
+								}
+							}
+						}
+					}
+				}
+				sort.Slice(ps, func(i, j int) bool { return ps[i].i < ps[j].i })
+				for _, pk := range ps {
+					v := pk.v
+					if mi, ok := v.(*ssa.MakeInterface); ok {
+						v = mi.X
+					}
+					if bv, ok := bind[v]; ok {
+						v = bv
+					}
+					var render func(x ssa.Value, d int) string
+					render = func(x ssa.Value, d int) string {
+						if bv, ok := bind[x]; ok {
+							x = bv
+						}
+						if p, ok := x.(*ssa.Parameter); ok {
+							return fmt.Sprintf("$string%d", strOrdinal(p.Parent(), p))
+						}
+						if cl, ok := x.(*ssa.Call); ok && d < 3 {
+							if cs := cl.Common().StaticCallee(); cs != nil {
+								var as []string
+								for _, a := range cl.Common().Args {
+									as = append(as, render(a, d+1))
+								}
+								return cs.String() + "(" + strings.Join(as, ",") + ")"
+							}
+						}
+						if k, ok := x.(*ssa.Const); ok {
+							return k.String()
+						}
+						return "?"
+					}
+					args = append(args, render(v, 0))
+				}
+				return f + " | " + strings.Join(args, ", ")
+			}
+			if isModuleFn(sc) && fnPkgRel(sc) == fnPkgRel(fn) {
+				nb := map[ssa.Value]ssa.Value{}
+				for i, a := range call.Common().Args {
+					if i < len(sc.Params) {
+						v := a
+						if bv, ok := bind[v]; ok {
+							v = bv
+						}
+						nb[sc.Params[i]] = v
+					}
+				}
+				if r := settingsKeyDerivation(sc, nb, depth+1); r != "" {
+					return r
+				}
+			}
+		}
+	}
+	return ""
 }
